@@ -312,7 +312,7 @@ _run3 = run
 
 
 def run(pid, tier, seed, replay):  # noqa: F811
-    if pid in ("C16", "C17"):
+    if pid in ("C16", "C17", "C19"):
         import cliprops
-        return cliprops.run_c16(tier, seed, replay) if pid == "C16" else cliprops.run_c17(tier, seed, replay)
+        return {"C16": cliprops.run_c16, "C17": cliprops.run_c17, "C19": cliprops.run_c19}[pid](tier, seed, replay)
     return _run3(pid, tier, seed, replay)
